@@ -129,7 +129,7 @@ def doPlan (o : Options) (fo : FOptions) (segs : List Seg) (scoresStr implLine :
   let mplan := if useGo then plan o cb goScore (· < ·) segs else plan o cb sf (· < ·) segs
   let p := prep o cb segs
   let mtasks := mplan.getD []
-  let result := match mplan with
+  let result := if impl == "skipped-after-timeout" then impl else match mplan with
     | none => "nil"
     | some ts => s!"budget({p.eligiblesLive},{p.minLive})={p.budget} tasks={showTasks ts} scores={scoresTok}"
   -- coverage
@@ -157,7 +157,8 @@ def doPlan (o : Options) (fo : FOptions) (segs : List Seg) (scoresStr implLine :
   -- verdict: the oracle on the implementation's own tasks
   let sane := optionsSane o && distinct
   let verdict : String :=
-    if impl == "timeout" then "bad:planner-did-not-return"
+    if impl == "timeout" || impl == "runaway" then "bad:planner-did-not-return"
+    else if impl == "skipped-after-timeout" then "na"
     else if impl == "panic" then (if sane then "bad:panic" else "na")
     else if impl.startsWith "hook-divergence" then "bad:plan-depends-on-hook-identity"
     else if impl == "nil" then (if segs.length ≤ 1 then "ok" else "bad:nil-plan-for-two-or-more")
